@@ -108,7 +108,7 @@ def confirmed(f, p, prop):
 def replay_file(prop, path):
     art = json.load(open(path))
     inp = art["input"]
-    allf = proxyfam.policy_families() + proxyfam.flight_families() + proxyfam.reval_families()
+    allf = proxyfam.all_families()
     f = next((x for x in allf if x["name"] == inp.get("family")), None)
     if f is None:
         raise vlib.Inconclusive("unknown family %s" % inp.get("family"))
